@@ -324,7 +324,7 @@ def sig(*parts):
 def pos_sizes(ctx):
     if getattr(ctx, 'proof_broken', False) and ctx.quick:
         return (30, 600, None)         # every position of the stream is judged against the rules (Spec), not a sample
-    return (30, 600, 400) if ctx.quick else (1500, 40000, 6000)       # playout games, synthetic placements, spec sample
+    return (30, 600, 400) if ctx.quick else (400, 8000, 2000)       # playout games, synthetic placements, spec sample
 
 
 def shrink_fen(fen, still_fails, budget=60):
@@ -503,7 +503,7 @@ def first_diff_ply(a, b):
 
 @check('C02', ['C02.v'])
 def c02(ctx):
-    games, plies = (300, 160) if ctx.quick else (12000, 200)
+    games, plies = (300, 160) if ctx.quick else (3000, 200)
     cases, impl, model, model_raw, notes, stats = line_stream(ctx, 'game', 'g02', [games, plies])
     nviol = 0
     # implementation-only observations: bookkeeping vs board, unmake, push vs apply
@@ -537,7 +537,7 @@ def c02(ctx):
                 break
     # un-making during search: after searches that run to completion, hit their deadline (also inside quiescence) or are stopped at a
     # root or inner node, the position stack is back at index 0 with the snapshot `position` left
-    rc, qout, qerr, _ = harness(['queries', str(40 if ctx.quick else 1500), 'search'], timeout=3000)
+    rc, qout, qerr, _ = harness(['queries', str(40 if ctx.quick else 400), 'search'], timeout=3000)
     qrows = [l.split('\t') for l in qout.strip().split('\n') if l]
     for r in qrows:
         if not r[0].startswith('ok'):
@@ -662,7 +662,7 @@ def c06(ctx):
                 break
     mm = field_mismatches(ps, ['tactical', 'count', 'tcount', 'legal'])
     # perft / tperft through the command interpreter against the model (model = Spec.paths by theorem; and see C01)
-    npf, dfull, dsparse = (120, 2, 3) if ctx.quick else (3000, 3, 4)
+    npf, dfull, dsparse = (120, 2, 3) if ctx.quick else (600, 3, 4)
     cases, impl, model, model_raw, notes, stats = line_stream(ctx, 'perft', 'pf06', [npf, dfull, dsparse])
     pm = [i for i in range(len(cases)) if impl[i] != model[i]]
     for i in pm[:10]:
@@ -945,7 +945,7 @@ def refmm_parallel(items, limit=4000000):
 
 @check('C04', ['C04.v', 'C04chess.v'])
 def c04(ctx):
-    n = 1000 if ctx.quick else 30000
+    n = 1000 if ctx.quick else 6000
     pos = search_batch(ctx, n)
     compared = deviations = sens_skipped = 0
     nontrivial = set()
@@ -1047,7 +1047,7 @@ for _p in ('C03', 'C04', 'C05', 'C10', 'C14'):
 
 @check('C05', ['C05.v', 'C05mate.v', 'C05src.v'])
 def c05(ctx):
-    n = 260 if ctx.quick else 6000
+    n = 260 if ctx.quick else 1500
     allpos = S.positions(ctx, n, extra_seed=5)
     pos = [p for p in allpos if p['men'] <= 7]
     maxd = 3 if ctx.quick else 4
@@ -1688,7 +1688,7 @@ def strip_log(cls):
 
 @check('C17', ['C17.v', 'C17full.v'])
 def c17(ctx):
-    nscripts, nlines = (48, 22) if ctx.quick else (3000, 30)
+    nscripts, nlines = (48, 22) if ctx.quick else (800, 30)
     rng = ctx.rng
     scripts = [L.gen_script(rng, nlines) for _ in range(nscripts)]
     # legal move lists long enough to carry the int16 game-ply counter past 32767 (the loader's move-number cap leaves ~900 plies)
